@@ -11,7 +11,8 @@ case "$demo_cmd" in cp\ *\&\&*) demo_cmd="${demo_cmd#*&& }";; esac
 demo_dir=${demo_dir%/}; demo_dir=${demo_dir#./}; [ -z "$demo_dir" ] && demo_dir=.
 cd $wt || exit 9
 git checkout -q -- . ; git clean -fdq
-cp $d/demo_test.go $demo_dir/zz_demo_test.go
+demo=$d/demo_test.go; [ -f $demo ] || demo=$d/demo_test.go.txt
+cp $demo $demo_dir/zz_demo_test.go
 clean=$(eval "$demo_cmd" 2>&1); rc_clean=$?
 git apply $patch || { echo "RESULT $d apply-failed"; git checkout -q -- .; git clean -fdq; exit 3; }
 go build ./... || { echo "RESULT $d build-failed"; git checkout -q -- .; git clean -fdq; exit 4; }
